@@ -94,7 +94,7 @@ func (c *cluster) skipModel(why string) {
 func (c *cluster) lostAcked() bool {
 	violMu.Lock()
 	defer violMu.Unlock()
-	return c.violSeen["acked-write-lost"] || c.violSeen["swap:committed-copy-only-on-removed-node"]
+	return c.lost
 }
 
 func (c *cluster) stepAudit(n int) bool { return false }
